@@ -282,7 +282,9 @@ class PureScheduler:                                    # pylint: disable=r0902
                           .format(job, container_label, before - after))
             # recursively scan nested schedulers
             if isinstance(job, PureScheduler):
-                changes = job.sanitize(verbose) or changes
+                # sanitize() returns True when nothing was changed
+                if not job.sanitize(verbose):
+                    changes = True
         return not changes
 
     ####################
